@@ -527,6 +527,25 @@ func runC16R9(c *eng.Ctx, r *eng.RuleCtx) {
 		if o := eng.CalleeOf(vinfo, cl); o == nil || o.Name() != "Append" {
 			continue
 		}
+		// the rejection must be unconditional for the pair: the enclosing `if` is not nested in another branch and its
+		// condition consists of exactly the two atoms (an extra conjunct such as `&& op.Group == ""` narrows the check)
+		chain := eng.EnclosingStmts(v.Decl.Body, as.Pos())
+		nIf, atoms := 0, 0
+		for _, st := range chain {
+			switch t := st.(type) {
+			case *ast.IfStmt:
+				nIf++
+				atoms = countConjuncts(t.Cond)
+				if t.Else != nil && as.Pos() >= t.Else.Pos() {
+					nIf += 10
+				}
+			case *ast.ForStmt, *ast.RangeStmt, *ast.SwitchStmt, *ast.SelectStmt, *ast.TypeSwitchStmt:
+				nIf += 10
+			}
+		}
+		if nIf != 1 || atoms != 2 {
+			continue
+		}
 		for _, pr := range condPairs(vg, vinfo, n, action, nil, true) {
 			enforced[pr] = true
 		}
@@ -553,4 +572,12 @@ func runC16R9(c *eng.Ctx, r *eng.RuleCtx) {
 			}
 		}
 	}
+}
+
+func countConjuncts(e ast.Expr) int {
+	e = ast.Unparen(e)
+	if b, ok := e.(*ast.BinaryExpr); ok && b.Op == token.LAND {
+		return countConjuncts(b.X) + countConjuncts(b.Y)
+	}
+	return 1
 }
